@@ -192,7 +192,9 @@ var restoreCmd = &cobra.Command{
 					// untracked files in the working tree are ignored
 					paths := stagedPathsUnderDirectory(cleanedArg, client.Idx, tree)
 					if len(paths) == 0 {
-						return fmt.Errorf("error: pathspec '%s' did not match any file(s) known to goit", arg)
+						// nothing is known beneath the directory, but the name itself may be a staged or committed file:
+						// what is on disk must not hide it from the staging area
+						paths = []string{cleanedArg}
 					}
 
 					for _, path := range paths {
